@@ -5,7 +5,7 @@ import sys
 sys.path.insert(0, os.path.join(os.path.dirname(os.path.abspath(__file__)), "..", "lib"))
 sys.path.insert(0, os.path.join(os.path.dirname(os.path.abspath(__file__)), "..", "translator"))
 from ksiverif.runner import Config, Engine  # noqa: E402
-from ksiverif import sig as S, pdu  # noqa: E402
+from ksiverif import core, sig as S, pdu, pki, pubfile as PF  # noqa: E402
 from ksiverif.gen import tlv, be, hx  # noqa: E402
 import tables  # noqa: E402
 
@@ -115,6 +115,37 @@ def gen(rng, tier):
         yield line(s, to, None, ver, b"", "malformed")
         if t > 1:
             yield line(s, t - rng.choice([1, 100]), None, ver, R(), "target-before-the-aggregation-time")
+    # ---- KSI_extendSignature: target = nearest publication of a PKI-verified publications file ----
+    EMAIL = pki.OIDS["emailAddress"]
+    good_cons = "%s:%s" % (EMAIL, pki.SUBJECT["emailAddress"].encode().hex())
+    bad_cons = "%s:%s" % (EMAIL, b"someone@else".hex())
+    for i in range(6 if not big else 60):
+        s = S.build(rng, with_cal=rng.random() < 0.7, anchor=rng.choice(["pub", "auth", "none"]))
+        t = s.chains[0].time
+        root = aggregation_root(s)
+        pa = s.cal.pub_time if s.cal else t
+        p = pa + rng.choice([0, 1, 86400])
+        ver = rng.choice([1, 2])
+        good = new_chain(rng, s, t, p, root)
+        pubs = [(t - 100000, S.H(1, b"old")), (p, good.root()), (p + 86400, S.H(1, b"later"))]
+        rec = tlv(0x803, tlv(0x10, tlv(0x02, be(p)) + tlv(0x04, good.root())))
+        def signed_file(pubs):
+            body = PF.MAGIC + PF.header() + b"".join(PF.pub(tt, im) for tt, im in pubs)
+            return body + PF.sigrec(pki.sign(body))
+        pf = signed_file(pubs)
+        XS = lambda rep, pfb, anchors, cons, trusted, recb, to, label: "xs %s %d %s %s %s %s %s trusted=%d %s %s %s" % (   # noqa: E731
+            hx(s.enc()), ver, hx(KEY), hx(rep), hx(pfb), anchors, cons, trusted, "-" if recb is None else hx(recb), "-" if to is None else to, label)
+        yield XS(reply(ver, 1, 0, good), pf, "ca", good_cons, 1, rec, p, "ok")
+        yield XS(reply(ver, 1, 0, good), pf, "other", good_cons, 0, rec, p, "publications-file-not-trusted")
+        yield XS(reply(ver, 1, 0, good), pf, "ca", bad_cons, 0, rec, p, "publications-file-not-trusted")
+        yield XS(reply(ver, 1, 0, good), pf, "ca", "-", 0, rec, p, "publications-file-not-trusted")
+        tampered = bytearray(pf); tampered[30] ^= 1
+        yield XS(reply(ver, 1, 0, good), bytes(tampered), "ca", good_cons, 0, rec, p, "publications-file-not-trusted")
+        yield XS(reply(ver, 1, 0, good), signed_file([(t - 100000, S.H(1, b"old"))]), "ca", good_cons, 1, None, None, "no-suitable-publication")
+        yield XS(reply(ver, 2, 0, good), pf, "ca", good_cons, 1, rec, p, "wrong-request-id")
+        yield XS(reply(ver, 1, 0, new_chain(rng, s, t, p + 86400, root)), pf, "ca", good_cons, 1, rec, p, "other-publication-time")
+        yield XS(reply(ver, 1, 0, good), signed_file([(p, S.H(1, b"not the root"))]), "ca", good_cons, 1,
+                 tlv(0x803, tlv(0x10, tlv(0x02, be(p)) + tlv(0x04, S.H(1, b"not the root")))), p, "publication-hash-is-not-the-calendar-root")
     # ---- the compatibility check on its own (public API): right links must agree one by one ----
     for _ in range(20 if not big else 300):
         t = rng.randrange(1400000000, 1500000000)
@@ -153,7 +184,7 @@ CONFIG.props_module = "KsiVerif.Props.C08"
 CONFIG.required_theorems = ["verifyWithRequest_ok_iff", "compatible_ok_iff", "compose_keeps", "compose_anchors", "compose_calendar",
                              "extend_ok_requires", "unauthenticated_reply_refused", "result_structure"]
 CONFIG.translators = [tables.gen_templates, tables.gen_hashalgs, tables.gen_policies]
-CONFIG.engines = [Engine("c08", ["exec_c08.c"], "drv_c08", gen, trivial=trivial)]
+CONFIG.engines = [Engine("c08", ["exec_c08.c"], "drv_c08", gen, trivial=trivial, env={"VERIF_PKI_DIR": os.path.join(core.VERIF, ".build", "pki")})]
 CONFIG.rule = ("op lines from one PRNG (VERIF_SEED). hashlib-built signatures without calendar chain / with one anchored by publication record, "
                "authentication record or nothing (some with an RFC3161 record), extended through the file transport with PDU v1 and v2, by "
                "KSI_Signature_extendTo (target absent / equal / later) and KSI_Signature_extend (with a publication record: right root, other root, other "
@@ -172,7 +203,7 @@ CONFIG.trusted_base = [
     "the transport is a parameter: `reply` is whatever octets arrive; request id 1 is what the file client assigns to a context's first request",
     "translator/tables.py, harness/exec_c08.c, lean/Drv/C08.lean, lib/ksiverif/sig.py, lib/ksiverif/pdu.py"]
 CONFIG.assumptions = [
-    "KSI_extendSignature (publication looked up in the publications file) = getNearestPublication (C18) + KSI_Signature_extend; not driven separately",
+    "KSI_extendSignature is driven (op xs) with a publications file fetched through file:// and PKI-verified against a throw-away CA (.build/pki); the model composes the C18 trust decision (a generator fact checked by the C18 check) with extendTo on the nearest publication",
     "HTTP and TCP transports hand the reply octets to the same KSI_RequestHandle_getExtendResponse; the asynchronous service uses the same "
     "KSI_ExtendResp_verifyWithRequest (C13 drives it)",
     "the new calendar chain is re-serialized from its parsed form: unknown non-critical elements inside the reply's chain do not reach the result"]
